@@ -374,8 +374,9 @@ def _simulate_catalog(module, rates, num_events, random_numbers=None, seed=None,
     sampling weights.  Injected numbers: inverse-CDF placement of each; seeded: counts only."""
     import importlib
     m = importlib.import_module('csep.core.%s_evaluations' % {'poisson': 'poisson', 'binary': 'binomial', 'brier': 'brier'}[module])
-    r = numpy.array(rates, dtype=float).ravel()
-    w = numpy.cumsum(r) / numpy.sum(r)
+    # the sampling weights handed in are the correctly rounded cumulative normalised rates (ending
+    # at exactly 1.0); how the three tests build their own weights is probed by 'sim_test_ndarray'
+    w = numpy.array(cumulative(_flat(rates)), dtype=float)
     rn = None if random_numbers is None else numpy.array(random_numbers, dtype=float)
     if rn is not None and len(rn) != num_events:
         raise ValueError('oracle: need exactly num_events random numbers')
